@@ -215,22 +215,37 @@ def _run(prop, reg, tier, seed, work, known, t0, replay):
                     if i is not None:
                         idxs.add(i)
             if lspec.get("deterministic", True) and idxs:
-                tf2 = leg.drive(binary, only=idxs, tag="repro")
-                tv2, rej2, invf2 = leg.validate(tf2)
-                traces2 = core.load_traces(tf2)
-                infos2 = {i["t"]: i for i in (json.load(open(tf2 + ".idx.json")) or [])}
-                sigs2 = {}
-                for r in rej2:
-                    s2 = signature(prop, traces2[r["t"]], r, invf2)
-                    sigs2.setdefault(s2, []).append((r, traces2[r["t"]], infos2[r["t"]]))
-                for sig in unknown:
-                    if sig in sigs2:
-                        confirmed[sig] = sigs2[sig][0]
-                    else:
-                        log("[repro] rejection %s did not reproduce -> inconclusive" % sig)
-                if len(confirmed) < len(unknown):
-                    _emit_violations(prop, leg, tier, confirmed, violations)
-                    raise Inconclusive("unreproduced rejection(s): %s" % sorted(set(unknown) - set(confirmed)))
+                # A rejection counts only when the real code shows it again: re-run the rejected scenarios (up to
+                # three times for schedule-dependent behaviour).  Signatures that never come back are reported as
+                # notes; the run is inconclusive only if nothing at all could be reproduced.
+                pending = dict(unknown)
+                for attempt in range(int(lspec.get("repro_attempts", 3))):
+                    idxs = set()
+                    for sig, rs in pending.items():
+                        for r in rs[:20]:
+                            i = scenario_index(infos[r["t"]])
+                            if i is not None:
+                                idxs.add(i)
+                    if not idxs:
+                        break
+                    tf2 = leg.drive(binary, only=idxs, tag="repro%d" % attempt)
+                    tv2, rej2, invf2 = leg.validate(tf2)
+                    traces2 = core.load_traces(tf2)
+                    infos2 = {i["t"]: i for i in (json.load(open(tf2 + ".idx.json")) or [])}
+                    sigs2 = {}
+                    for r in rej2:
+                        s2 = signature(prop, traces2[r["t"]], r, invf2)
+                        sigs2.setdefault(s2, []).append((r, traces2[r["t"]], infos2[r["t"]]))
+                    for sig in list(pending):
+                        if sig in sigs2:
+                            confirmed[sig] = sigs2[sig][0]
+                            del pending[sig]
+                    if not pending:
+                        break
+                for sig in pending:
+                    log("[repro] rejection %s did not reproduce" % sig)
+                if pending and not confirmed:
+                    raise Inconclusive("unreproduced rejection(s): %s" % sorted(pending))
             else:
                 for sig, rs in unknown.items():
                     r = rs[0]
@@ -246,6 +261,12 @@ def _run(prop, reg, tier, seed, work, known, t0, replay):
                          "trace_spec": "%s/%s" % tuple(lspec["trace"])})
     for fid, (k, cnt, sig) in sorted(known_hits.items()):
         print("KNOWN-FINDING: property=%s %s [%s; %d traces, e.g. %s]" % (prop, k["what"], fid, cnt, sig))
+    if not replay and not os.environ.get("VERIF_LEG"):
+        for k in known:
+            if k.get("status") == "open" and k["id"] not in known_hits:
+                # not an error (some classes are only exercised in the thorough tier), but a listed finding that
+                # never fires any more must be looked at: it would hide a regression of its class
+                log("note: open known finding %s did not fire in this %s run" % (k["id"], tier))
     for sig, path in violations:
         print("VIOLATION property=%s replay=%s" % (prop, path))
         log("  signature: " + sig)
